@@ -42,9 +42,9 @@ VARS3 = ['x', 'y', 'z']
 #   | ['for', block] | ['while', block] | ['def', name, block] | ['call', name]                     (part 2 only)
 
 # surface forms of the two read statements: the same names are read, every one of them on every execution, whatever they hold
-P_STYLES = ['print(%s)', 'print(f"value is {%s}")', 'print(str(%s) + "!")', 'print([%s])', 'print("%%s" %% (%s,))', 'print({1: %s})', 'print(repr(%s), end="")']
+P_STYLES = ['print(%s)', 'print(f"value is {%s}")', 'print(str(%s) + "!")', 'print([%s])', 'print("%%s" %% (%s,))', 'print({1: %s})', 'print(repr(%s), end="")', 'print(f"{1:{%s}}")']
 P2_STYLES = ['print(%s, %s)', 'print(f"{%s} and {%s}")', 'print((%s, %s))', 'print(%s == %s)', 'print(f"first {%s!r:>4}", f"{%s}")', 'print(%s, end=str(%s))',
-             'print(str(%s), sep=repr(%s))']
+             'print(str(%s), sep=repr(%s))', 'print(f"{%s:{%s}}")']
 _surface = {'style': 0}
 
 
@@ -501,7 +501,7 @@ def small_programs(tier):
         for i, prog in enumerate(blocks(size, depth, VARS2)):
             yield {'program': prog}
             if any(st_[0] in ('p', 'p2') for st_ in _flat(prog)):
-                yield {'program': prog, 'style': 1 + i % 6}
+                yield {'program': prog, 'style': 1 + i % 7}
 
 
 def caller_programs(tier):
@@ -548,7 +548,7 @@ def _block(depth, loops=False, calls=None):
 def large_programs(tier):
     # initialise-first bias keeps the "ambiguous for the unused rule" class small
     init = st.lists(st.tuples(st.just('a0'), _var).map(list), max_size=2)
-    return st.tuples(init, _block(3), st.integers(0, 6)).map(lambda t: dict({'program': t[0] + t[1]}, **({'style': t[2]} if t[2] else {})))
+    return st.tuples(init, _block(3), st.integers(0, 7)).map(lambda t: dict({'program': t[0] + t[1]}, **({'style': t[2]} if t[2] else {})))
 
 
 def loop_programs(tier):
@@ -566,7 +566,7 @@ def loop_programs(tier):
             if names:
                 prog.insert(len(defs) + pos % (len(body) + 1), ['call', names[which % len(names)]])
         return {'part': 2, 'program': prog}
-    return st.tuples(st.tuples(funcs, _block(2, loops=True), st.lists(st.tuples(st.integers(0, 6), st.integers(0, 1)), max_size=3)).map(assemble), st.integers(0, 6)).map(
+    return st.tuples(st.tuples(funcs, _block(2, loops=True), st.lists(st.tuples(st.integers(0, 6), st.integers(0, 1)), max_size=3)).map(assemble), st.integers(0, 7)).map(
         lambda t: dict(t[0], **({'style': t[1]} if t[1] else {})))
 
 
@@ -587,7 +587,7 @@ def list_loop_programs(tier):
         if wrap == 'while':
             prog = [['le', 'p'], ['while', prog]]
         return {'part': 2, 'program': prog}
-    return st.tuples(st.tuples(prefix, loop, tail, outer).map(assemble), st.integers(0, 6)).map(lambda t: dict(t[0], **({'style': t[1]} if t[1] else {})))
+    return st.tuples(st.tuples(prefix, loop, tail, outer).map(assemble), st.integers(0, 7)).map(lambda t: dict(t[0], **({'style': t[1]} if t[1] else {})))
 
 
 STRATEGIES = {'large': large_programs, 'loops': loop_programs, 'listloops': list_loop_programs}
